@@ -106,6 +106,12 @@ Theorem c08_rules_meet_c01_file_input : forall w0 w n,
 Proof. exact file_input_rerun. Qed.
 Print Assumptions c08_rules_meet_c01_file_input.
 
+(* virtual input nodes: valid iff the stored value is VirtualInput, which is what the task completes with *)
+Theorem c08_rules_meet_c01_virtual_input : forall v,
+  kind_is v VVirtualInput = true -> bv_infos v = [] -> value_equiv (v_simple VVirtualInput) v = true.
+Proof. exact virtual_input_rerun. Qed.
+Print Assumptions c08_rules_meet_c01_virtual_input.
+
 (* produced nodes: validity does not look at the world, and the value is a function of the producer's value that
    respects equivalence *)
 Theorem c08_rules_meet_c01_produced_node : forall c n v1 v2,
@@ -258,3 +264,16 @@ Proof. vm_compute. split; reflexivity. Qed.
 Example c08_example_input_becomes_produced :
   producers ex_d3 ex_src2 = [] /\ producers ex_d4 ex_src2 = [ex_cgen].
 Proof. vm_compute. split; reflexivity. Qed.
+
+Example c08_example_rerun_same_content_new_value :
+  exists a b, result_for_output ex_cb ex_out (val_of ex_state (KC [67;46;98])) = Some a /\
+              result_for_output ex_cb ex_out (command_result 2 ex_world_rerun (cm_outputs ex_cb)) = Some b /\
+              value_equiv a b = false /\ content_w ex_world_rerun ex_out = content_w (bs_world ex_state) ex_out.
+Proof. exact ex_dependents_see_change. Qed.
+
+Example c08_example_mkdir_symlink_tamper :
+  cmd_valid ex_d5 (bs_world ex_state5) ex_cmk (val_of ex_state5 (KC [67;46;109])) = Valid /\
+  cmd_valid ex_d5 (del (bs_world ex_state5) ex_dir) ex_cmk (val_of ex_state5 (KC [67;46;109])) = Invalid /\
+  cmd_valid ex_d5 (bs_world ex_state5) ex_cln (val_of ex_state5 (KC [67;46;108])) = Valid /\
+  cmd_valid ex_d5 (del (bs_world ex_state5) ex_lnk) ex_cln (val_of ex_state5 (KC [67;46;108])) = Invalid.
+Proof. vm_compute. repeat split; reflexivity. Qed.
